@@ -1,6 +1,9 @@
 SPECIFICATION HSpec
 CONSTANTS
-  Statuses = {"idle:stopped", "idle:done", "error:x"}
+  Statuses = {"100:stopped", "100:done", "400:x"}
+  Codes = {100, 300, 390, 400}
 INVARIANT HTypeOK
+INVARIANT FastOnlyWhileRunning
 PROPERTY ReqDiscipline
+PROPERTY ErrOnlyAfterOnError
 CHECK_DEADLOCK FALSE
